@@ -1,4 +1,9 @@
 pub mod c01;
+pub mod c04;
+pub mod c12;
+pub mod c14;
+pub mod c20;
+pub mod tamper;
 
 use crate::util::ShardOut;
 
@@ -16,6 +21,11 @@ pub struct Args {
 pub fn run(a: &Args) -> Result<ShardOut, String> {
     match a.prop.as_str() {
         "C01" => Ok(c01::run(a)),
+        "C20" => Ok(c20::run(a)),
+        "C12" => Ok(c12::run(a)),
+        "C14" => Ok(c14::run(a)),
+        "C03" => Ok(tamper::run(a, false)),
+        "C04" => Ok(c04::run(a)),
         p => Err(format!("unknown property {p}")),
     }
 }
